@@ -18,12 +18,12 @@ EXPLANATION = ('For every sequence of molecule instances within the bound (3 loa
                'the explored paths exhaust the ranges.  On every path the molecules returned (iteration, len, composition, integer and '
                'negative indexing, slicing) are compared with the instances the file was assembled from: contiguous disjoint atom runs in file '
                'order, atom names equal to the topology, coordinates equal to the file.  A topology without a matching run must raise IOError.')
-BOUNDS = {'quick': {'compositions': 'all sequences of 1..4 instances over 4 species (340)', 'load orders': 'all permutations of the loaded species present (symbolic)',
+BOUNDS = {'quick': {'compositions': 'all sequences of 1..4 instances over 4 species (340), 29 with a self-overlapping two-residue dimer, 8 with per-molecule residue numbering', 'load orders': 'all permutations of the loaded species present (symbolic)',
                     'index': 'every k in [-len, len)', 'slices': 'every 0 <= a <= b <= len'},
           'thorough': {'compositions': 'all sequences of 1..5 instances (1364) and selected 6-instance interleavings'}}
 OUTSIDE = ['species whose residue signatures are not distinct (outside the statement)', 'random longer systems', 'coordinates are concrete decimals (text)']
 STUBS = ['file objects -> in-memory text files; topologies built directly with the real AtomTop/MoleculeTop classes']
-ASSUMPTIONS = ['residue numbers are fresh for every residue of the file (consecutive residues never share number and name)']
+ASSUMPTIONS = ['consecutive residues never share both number and name']
 CASE_TIMEOUT = {'quick': 900, 'thorough': 3000}
 
 # species: name -> list of residues (resname, [atom names])
@@ -32,12 +32,15 @@ SPECIES = {
     'I': ('ION', [('IO', ['NA'])], []),
     'P': ('PEP', [('PA', ['N1']), ('PB', ['CA', 'CB']), ('PA', ['N1'])], [(0, 1), (1, 2), (2, 3)]),
     'W': ('SOL', [('SOL', ['OW', 'H1', 'H2'])], [(0, 1), (0, 2)]),
+    'D': ('DIM', [('MON', ['M1']), ('MON', ['M1'])], [(0, 1)]),          # two identical residues: the pattern overlaps itself
 }
-LOADABLE = 'LIP'
+LOADABLE = 'LIPD'
 
 
-def _build(comp):
-    """records of the file and the expected instances [(species letter, first atom id, [(resname, atomname, (x,y,z))...])]"""
+def _build(comp, numbering='fresh'):
+    """records of the file and the expected instances [(species letter, first atom id, [(resname, atomname, (x,y,z))...])]
+    numbering 'fresh': every residue its own number; 'per-molecule': all residues of a molecule share the molecule's number
+    (adjacent residues then differ only by name)"""
     recs, inst = [], []
     atomid, resid = 1, 1
     for slot, sp in enumerate(comp):
@@ -47,7 +50,7 @@ def _build(comp):
         for rn, ats in residues:
             for an in ats:
                 xyz = (round(0.1 * atomid, 3), round(0.5 * slot, 3), round(0.01 * resid, 3))
-                recs.append([resid, rn, an, atomid, xyz[0], xyz[1], xyz[2]])
+                recs.append([resid if numbering == 'fresh' else slot + 1, rn, an, atomid, xyz[0], xyz[1], xyz[2]])
                 atoms.append((rn, an, xyz))
                 atomid += 1
             resid += 1
@@ -70,6 +73,10 @@ def cases(tier):
     maxlen = 4 if tier == 'quick' else 5
     comps = [''.join(p) for l in range(1, maxlen + 1) for p in itertools.product('LIPW', repeat=l)]
     comps = [c for c in comps if any(ch in 'LIP' for ch in c)]
+    # the self-overlapping dimer, alone / adjacent / interleaved (smaller set: it multiplies the alphabet)
+    comps += [''.join(p) for l in range(1, 4) for p in itertools.product('DIW', repeat=l) if 'D' in p] + ['DDDD', 'LDDP', 'DPDD']
+    # per-molecule residue numbering for the multi-residue species
+    comps += ['#' + c for c in ('L', 'LL', 'PL', 'LPL', 'PP', 'LIP', 'PWL', 'LLL')]
     if tier == 'thorough':
         comps += ['LWLPIP', 'PPWPPL', 'ILILIL', 'WPWPWP', 'LLLLLL', 'PIPIPW']
     cs = []
@@ -91,7 +98,9 @@ def run_case(case):
         return (m.name, [(a.resname, a.name, tuple(round(float(x), 6) for x in a.position)) for a in m], m.atoms_ids[0])
 
     for comp in case['comps']:
-        recs, inst = _build(comp)
+        numbering = 'per-molecule' if comp.startswith('#') else 'fresh'
+        comp = comp.lstrip('#')
+        recs, inst = _build(comp, numbering)
         text = write_gro_text(recs, comment='comp ' + comp)
         present = sorted({sp for sp in comp if sp in LOADABLE})
         absent = [sp for sp in LOADABLE if sp not in comp]
@@ -150,7 +159,7 @@ def run_case(case):
                 order, payload = res
                 if payload[0] == 'failed':
                     if bad is None:
-                        bad = {'order': ''.join(order), 'what': 'loading raised ' + payload[1]}
+                        bad = {'order': ''.join(order), 'what': 'loading raised ' + payload[1], 'numbering': numbering}
                     continue
                 if mode == 'all':
                     mols, ln, cc, err, still = payload
@@ -165,7 +174,7 @@ def run_case(case):
                     (a, b), got = payload
                     good = got == expected[a:b]
                 if not good and bad is None:
-                    bad = {'order': ''.join(order), 'what': mode, 'arg': payload[0] if mode != 'all' else None}
+                    bad = {'order': ''.join(order), 'what': mode, 'arg': payload[0] if mode != 'all' else None, 'numbering': numbering}
             nontrivial.append('%s/%s' % (comp, mode))
             what = {'all': 'iteration = the loaded-species instances in file order; len, composition agree; absent topologies refused',
                     'index': 'System[k] for every k in [-len, len) = k-th instance', 'slice': 'System[a:b] = instances a..b-1'}[mode]
@@ -193,7 +202,7 @@ def replay(w):
     from symx.files import write_gro_text
     from gaddlemaps.components import System
     comp = w['comp']
-    recs, inst = _build(comp)
+    recs, inst = _build(comp, w.get('numbering', 'fresh'))
     d = tempfile.mkdtemp(prefix='c11-')
     try:
         open(os.path.join(d, 'comp.gro'), 'w').write(write_gro_text(recs, comment='comp ' + comp))
